@@ -6,7 +6,7 @@ from typing import Optional, Union
 from ..exceptions import EncodeError, odxraise, odxrequire
 from ..odxtypes import AtomicOdxType, DataType
 from .compuscale import CompuScale
-from .limit import Limit
+from .limit import IntervalType, Limit
 
 
 @dataclass
@@ -129,10 +129,16 @@ class LinearSegment:
             internal_value = self.internal_type.from_string(internal_limit.value_raw)
             physical_value = self.convert_internal_to_physical(internal_value)
 
+            interval_type = internal_limit.interval_type
+            if self.factor == 0 and interval_type == IntervalType.OPEN:
+                # the image of a constant segment is a single point
+                # even if the internal interval is (half-)open
+                interval_type = IntervalType.CLOSED
+
             result = Limit(
                 value_raw=str(physical_value),
                 value_type=self.physical_type,
-                interval_type=internal_limit.interval_type)
+                interval_type=interval_type)
 
             return result
 
